@@ -827,12 +827,14 @@ class LLMGenerationActionsV2dotx(LLMGenerationActions):
         flow_config = state.flow_configs[triggering_flow_id]
         docstrings = re.findall(r'"""(.*?)"""', flow_config.source_code, re.DOTALL)
 
+        # The instructions to continue with are kept in the state of the conversation (not on
+        # this object, which serves all conversations)
         if len(docstrings) > 0:
             docstring = docstrings[0]
             if "one-off" not in docstring:
-                self._last_docstring = docstring
+                state.context["_last_flow_docstring"] = docstring
         else:
-            docstring = self._last_docstring
+            docstring = state.context.get("_last_flow_docstring", "")
 
         render_context = {}
         render_context.update(state.context)
